@@ -13,7 +13,7 @@ from harness import blocks
 
 PROPERTY_ID = 'C16'
 RULE = ('Operation lists (4-20 ops) over a solved Model (small generated block installed in Model.EquationSolver, or book '
-        'model SIM solved through Model.main()): get(series, cutoff|None, group main|step), set default cutoff, toggle '
+        'model SIM solved through Model.main()): get(series, cutoff|None, group main|step|initial), set default cutoff, toggle '
         'time-zero suppression, mutate the last returned list (append/pop/clear/overwrite/sort), render CSV with a format. '
         'Second family: BaseSolver subclasses with generated variable lists (with/without t) and repeated CreateCsvString. '
         'Non-trivial: a get under suppression followed by another get of the same series, or a mutation of a returned '
@@ -41,11 +41,16 @@ def model_case(draw):
         T = draw(st.integers(3, 6))
         spec['T'] = T
     spec['trace'] = draw(st.sampled_from([None, None, 1, 2]))
+    spec['steady'] = draw(st.sampled_from([False, False, True])) if src == 'block' else False
     ops = []
     name_st = st.sampled_from(names[:6] + ['no_such_series'])
     from harness import gen
     for _ in range(draw(st.integers(4, gen.size(20, 50)))):
-        k = draw(st.sampled_from(['get', 'get', 'get', 'get', 'suppress', 'mutate', 'mutate', 'cutoff', 'csv', 'get-step']))
+        k = draw(st.sampled_from(['get', 'get', 'get', 'get', 'suppress', 'mutate', 'mutate', 'cutoff', 'csv', 'get-step',
+                                  'get-initial']))
+        if k == 'get-initial':
+            ops.append(['get', draw(name_st), draw(st.sampled_from([None, 1, 3, 70])), 'initial'])
+            continue
         if k == 'get':
             ops.append(['get', draw(name_st), draw(st.sampled_from([None, None, 0, 1, 2, T, T + 3])), 'main'])
         elif k == 'get-step':
@@ -71,7 +76,7 @@ def run_model(spec):
     from sfc_models.models import Model
     if spec['src'] == 'block':
         mod = Model()
-        o, es, ex = blocks.solve(spec['block'], reduction=True, trace_step=spec['trace'])
+        o, es, ex = blocks.solve(spec['block'], reduction=True, trace_step=spec['trace'], steady=spec.get('steady'))
         if o != 'ok':
             raise Reject('block not solved: ' + o)
         mod.EquationSolver = es
@@ -85,6 +90,7 @@ def run_model(spec):
         es = mod.EquationSolver
     S = frozen(es.TimeSeries)
     S_step = frozen(es.TimeSeriesStepTrace)
+    S_init = frozen(es.TimeSeriesInitialSteadyState)
     csv_first = {}
     last = None
     stats = {'supp_get': {}, 'get_after_supp': False, 'mut_then_get': False, 'mutated': False, 'renders': 0}
@@ -94,7 +100,7 @@ def run_model(spec):
         hist = spec['ops'][:i + 1]
         if op[0] == 'get':
             _, name, cutoff, group = op
-            ref = S if group == 'main' else S_step
+            ref = {'main': S, 'step': S_step, 'initial': S_init}[group]
             eff = cutoff if cutoff is not None else default_cutoff
             try:
                 got = mod.GetTimeSeries(name, cutoff=cutoff, group_of_series=group)
@@ -167,6 +173,8 @@ def run_model(spec):
             bad = [k for k in S if now.get(k) != S[k]] + [k for k in now if k not in S]
             raise Violation('C16/stored-results-changed', 'after %r the stored series %r changed: %r -> %r' %
                             (hist, bad[:3], [S.get(b) for b in bad[:3]], [now.get(b) for b in bad[:3]]))
+        if frozen(es.TimeSeriesInitialSteadyState) != S_init:
+            raise Violation('C16/stored-initial-changed', 'after %r the stored steady-state search series changed' % (hist,))
         if frozen(es.TimeSeriesStepTrace) != S_step:
             raise Violation('C16/stored-trace-changed', 'after %r the stored step trace changed' % (hist,))
     score = int(stats['get_after_supp']) + int(stats['mut_then_get']) + int(stats['renders'] >= 2)
